@@ -157,6 +157,20 @@ CHECKS = {
         TRUSTED + "; values on box lengths other than 1,2,4 are covered only through shell occupancy and relations",
         "DESIGN.md 4/C17",
     ),
+    "C07": (
+        "model_checking",
+        "spec/Score.tla defines NCC and ZNCC as exact integer triples (num, da, db) with integer-weight masks and the ZNCC "
+        "landscape as the score of the mean-padded window at each integer displacement; TLC checks Cauchy-Schwarz "
+        "(|score| <= 1), self-score = 1 and landscape-centre = score on the exact values and emits images, masks, score and "
+        "landscape triples; Model.score, Model.landscape and Model.align(0) are compared with them. The relations the "
+        "property states between real outputs (bounds, gain/offset invariance, score = landscape centre = zero-range "
+        "alignment score for ZNCC/FSC, landscape arg-max = reported shift for every model, loader.score / "
+        "construct_landscape = model) are checked on float images over odd/even/non-cubic boxes, masks, cutoffs, tilt "
+        "models and orientations.",
+        "TLA+ spec Score.tla model-checked by TLC; exact score/landscape values replayed against the real models; stated relations checked between real calls",
+        TRUSTED + "; with cutoff/tilt the Pearson value itself is not recomputed (no exact filtered DFT in TLC), only the relations",
+        "DESIGN.md 4/C07",
+    ),
 }
 
 REASON_TODO = "check not built yet in this round (planned: see DESIGN.md section 4)"
